@@ -55,18 +55,41 @@ package crl
 //@   ensures [not-http=>no-request] !IsPlainHTTP(crlURL) ==> err != nil && ncalls(Client.Do) == old(ncalls(Client.Do))
 //@   ensures [one-exchange] ncalls(Client.Do) <= old(ncalls(Client.Do)) + 1
 
-// safety, termination and traversal: DER structure is not modelled, but the scan of the distribution points ends only
-// when the input is exhausted (stmt C18 "the first advertised location that answers": no advertised point is skipped)
-// and the list of locations only ever grows
+// stmt C18: "the delta CRL ... is taken from the ... advertised location[s]": which locations a CRLDistributionPoints /
+// FreshestCRL value advertises (RFC 5280 4.2.1.13, as crypto/x509 reads it): u is a URI name ([6]) among the leading
+// URI names of the fullName ([0] inside the distributionPoint [0]) of one of the DistributionPoint SEQUENCEs
+//@ import cbasn1 "golang.org/x/crypto/cryptobyte/asn1"
+//@ import "golang.org/x/crypto/cryptobyte"
+//@ spec func TagCtxCons(t cbasn1.Tag) cbasn1.Tag { t.Constructed().ContextSpecific() }
+//@ spec func TagCtx(t cbasn1.Tag) cbasn1.Tag { t.ContextSpecific() }
+//@ spec func PeekT(s cryptobyte.String, t cbasn1.Tag) bool { s.PeekASN1Tag(t) }
+//@ abstract func AdvNames(b []byte, u string) bool
+//@ abstract func AdvDP(dp []byte, u string) bool
+//@ abstract func AdvSeq(v []byte, u string) bool
+//@ axiom forall b []byte, u string :: AdvNames(b, u) <==> (len(b) > 0 && PeekT(b, TagCtx(6)) && DerOK(b, TagCtx(6)) && (tostr(DerBody(b, TagCtx(6))) == u || AdvNames(DerRest(b, TagCtx(6)), u)))
+//@ axiom forall dp []byte, u string :: AdvDP(dp, u) <==> (PeekT(dp, TagCtxCons(0)) && DerOK(dp, TagCtxCons(0)) && DerOK(DerBody(dp, TagCtxCons(0)), TagCtxCons(0)) && AdvNames(DerBody(DerBody(dp, TagCtxCons(0)), TagCtxCons(0)), u))
+//@ axiom forall v []byte, u string :: AdvSeq(v, u) <==> (len(v) > 0 && DerOK(v, cbasn1.SEQUENCE) && (AdvDP(DerBody(v, cbasn1.SEQUENCE), u) || AdvSeq(DerRest(v, cbasn1.SEQUENCE), u)))
+//@ stmt spec func Advertised(value []byte, u string) bool { DerOK(value, cbasn1.SEQUENCE) && AdvSeq(DerBody(value, cbasn1.SEQUENCE), u) }
+//@ spec func Points(value []byte) []byte { DerBody(value, cbasn1.SEQUENCE) }
+
 //@ func parseCRLDistributionPoint(value)
 //@   ensures [err] err != nil ==> len(result) == 0 && ExternalDyn(typeof(err)) && !IsNotFound(err)
+//@   ensures [only-advertised] err == nil ==> (forall j :: 0 <= j && j < len(result) ==> Advertised(value, result[j]))
+//@   ensures [all-advertised] err == nil ==> (forall u string :: Advertised(value, u) ==> (exists j :: 0 <= j && j < len(result) && result[j] == u))
 //@   assert after loop 0: [every-point-examined] len(val) == 0
 //@   pure
 //@   loop 0
-//@     invariant true
+//@     invariant DerOK(value, cbasn1.SEQUENCE)
+//@     invariant forall j :: 0 <= j && j < len(urls) ==> AdvSeq(Points(value), urls[j])
+//@     invariant forall u string :: AdvSeq(val, u) ==> AdvSeq(Points(value), u)
+//@     invariant forall u string :: AdvSeq(Points(value), u) ==> (exists j :: 0 <= j && j < len(urls) && urls[j] == u) || AdvSeq(val, u)
 //@     decreases len(val)
 //@   loop 1
-//@     invariant true
+//@     invariant DerOK(value, cbasn1.SEQUENCE)
+//@     invariant forall j :: 0 <= j && j < len(urls) ==> AdvSeq(Points(value), urls[j])
+//@     invariant forall u string :: AdvSeq(val, u) ==> AdvSeq(Points(value), u)
+//@     invariant forall u string :: AdvNames(dpNameDER, u) ==> AdvSeq(Points(value), u)
+//@     invariant forall u string :: AdvSeq(Points(value), u) ==> (exists j :: 0 <= j && j < len(urls) && urls[j] == u) || AdvNames(dpNameDER, u) || AdvSeq(val, u)
 //@     decreases len(dpNameDER)
 
 // stmt C18: "taken from the first advertised location that answers"; "a base CRL whose advertised delta cannot be
